@@ -137,6 +137,7 @@ func renderNode(w io.Writer, node *html.Node, indent int) error {
 }
 
 func renderNodeWithContext(ctx VueContext, w io.Writer, node *html.Node, indent int) error {
+	verifPoint(vpSerializeNode, indent, 0)
 	switch node.Type {
 	case html.TextNode:
 		if strings.TrimSpace(node.Data) == "" {
